@@ -94,7 +94,7 @@ class Session(object):
 
     def do_AddFp(self, a):
         tab = self.tab
-        data = tab.blobdata[a['blob']]
+        (fp, length) = tab.blob_fp(a['blob'])
         kw = {}
         if given(a.get('iso')):
             kw['iso_path'] = self._p('iso', a['iso'])
@@ -104,7 +104,7 @@ class Session(object):
             kw['joliet_path'] = self._p('jol', a['jol'])
         if given(a.get('udf')):
             kw['udf_path'] = self._p('udf', a['udf'])
-        self.iso.add_fp(io.BytesIO(data), len(data), **kw)
+        self.iso.add_fp(fp, length, **kw)
 
     def do_AddDir(self, a):
         tab = self.tab
